@@ -274,7 +274,8 @@ def spec(pos, t):
                 return "REJECT", "R2 out-struct in input"
     if pos in ("field", "outfield"):
         for (s, parent) in subterms(t):
-            if s[0] == "opt" and _value_ok(s[1]):
+            if s[0] == "opt" and (_value_ok(s[1]) or s[1][0] == "ffi"):
+                # (the diplomat_runtime slice types are plain repr(C) structs, not pointers)
                 return "REJECT", "R5 std Option of non-pointer in struct field"
         for (s, parent) in subterms(t):
             if is_bslice(s) or is_oslice(s) or (s[0] == "ref" and s[2][0] in ("slice", "str")):
